@@ -218,6 +218,66 @@ static void handler(vh::Reader& r, vh::Out& o)
 		putc(o, Spherical_Harmonics(L, M, th[di], ph[di]));
 		putc(o, Spherical_Harmonics(L, -M, th[di], ph[di]));
 	}
+	else if(op == "roundhist")
+	{
+		// roundhist n (kind d payload)*n: a history of Round requests in ONE process; kind 0 = Round(double, d) (payload x), 1 = Round(Vector, d)
+		// (payload list), 2 = Round(Matrix, d) (payload table); arguments may be NaN / +-inf / -0.0 / subnormal; every answer is printed
+		long n = r.integer();
+		for(long q = 0; q < n; q++)
+		{
+			long kind	   = r.integer();
+			unsigned int d = (unsigned int) r.integer();
+			if(kind == 0)
+				o.f(Round(r.num(), d));
+			else if(kind == 1)
+			{
+				Vector v(r.list());
+				Vector w = Round(v, d);
+				o.i(w.Size());
+				for(unsigned int k = 0; k < w.Size(); k++)
+					o.f(w[k]);
+			}
+			else
+			{
+				Matrix m(r.table());
+				Matrix w = Round(m, d);
+				o.i(w.Rows());
+				for(unsigned int i = 0; i < w.Rows(); i++)
+				{
+					o.i(w.Columns());
+					for(unsigned int j = 0; j < w.Columns(); j++)
+						o.f(w[i][j]);
+				}
+			}
+		}
+	}
+	else if(op == "vshhist")
+	{
+		// vshhist nd th1 ph1 .. k (kind l m di)*k: a history of harmonic requests over nd directions in ONE process (angles may be NaN / +-inf /
+		// -0.0 / subnormal / huge); kind 0 = Vector_Spherical_Harmonics_Y, 1 = Vector_Spherical_Harmonics_Psi, 2 = Spherical_Harmonics; every answer printed
+		long nd = r.integer();
+		std::vector<double> th(nd), ph(nd);
+		for(long i = 0; i < nd; i++)
+		{
+			th[i] = r.num();
+			ph[i] = r.num();
+		}
+		long k = r.integer();
+		for(long j = 0; j < k; j++)
+		{
+			long kind = r.integer();
+			int l = r.integer(), m = r.integer();
+			long di = r.integer();
+			if(kind == 0)
+				for(auto& z : Vector_Spherical_Harmonics_Y(l, m, th[di], ph[di]))
+					putc(o, z);
+			else if(kind == 1)
+				for(auto& z : Vector_Spherical_Harmonics_Psi(l, m, th[di], ph[di]))
+					putc(o, z);
+			else
+				putc(o, Spherical_Harmonics(l, m, th[di], ph[di]));
+		}
+	}
 	else
 		o.w("HARNESSERR unknown_op");
 }
